@@ -268,7 +268,9 @@ func oracleRun(p1 string, k *c02Case) (lines [][]string, class, msg string) {
 		}
 	}
 	if k.DT == 1 {
-		lines = append(lines, []string{"dt", types.Default(c.Type()).Underlying().String()})
+		if b, ok := types.Default(c.Type()).Underlying().(*types.Basic); ok {
+			lines = append(lines, []string{"dt", types.Typ[b.Kind()].Name()})
+		}
 	}
 	return lines, "ran", ""
 }
